@@ -132,6 +132,14 @@ def source_grp(ctx):
     vlib.proof_phase_extra(ctx, 'Properties_grp_source')
 
 
+# the stages of update chained: each translated stage, fed what the earlier ones produced, computes its component of compile_with
+SOURCE_UPDATE = ('C01',)
+
+
+def source_update(ctx):
+    vlib.proof_phase_extra(ctx, 'Properties_update_source')
+
+
 def main(pid, assumptions, level='proof', explanation=None):
     ctx = vlib.Ctx(pid)
     if ctx.replay:
@@ -164,6 +172,8 @@ def main(pid, assumptions, level='proof', explanation=None):
         source_lat(ctx)
     if pid in SOURCE_GRP:
         source_grp(ctx)
+    if pid in SOURCE_UPDATE:
+        source_update(ctx)
     res = coresuite.dispatch_suite(ctx.tier, ctx.seed)
     cov = coresuite.summarize(ctx, res, pid)
     if pid == 'C03':
